@@ -31,11 +31,11 @@ TIERS = {
 
 def shapes(c, full):
     cfg = os.path.join(c.work, "MC_Wire.cfg")
-    with open("/verif/spec/mc/MC_Wire.cfg") as f:
+    with open(common.VERIF + "/spec/mc/MC_Wire.cfg") as f:
         text = f.read().replace("CONSTANT Full = FALSE", "CONSTANT Full = %s" % ("TRUE" if full else "FALSE"))
     with open(cfg, "w") as f:
         f.write(text)
-    r = tlc.run("/verif/spec/mc/MC_Wire.tla", cfg, os.path.join(c.work, "tlc-wire"), workers=6, xmx="8g", timeout=7200)
+    r = tlc.run(common.VERIF + "/spec/mc/MC_Wire.tla", cfg, os.path.join(c.work, "tlc-wire"), workers=6, xmx="8g", timeout=7200)
     if r.violated or not r.ok:
         raise common.ToolError("Wire.tla violates its own law %s" % r.violated)
     out = []
@@ -50,8 +50,27 @@ def shapes(c, full):
     return r, p, len(out)
 
 
+def uo_templates(c, full):
+    """the templates of UserOps.tla (reserved user operations, status report), enumerated by TLC"""
+    cfg = os.path.join(c.work, "MC_UserOps.cfg")
+    with open(common.VERIF + "/spec/mc/MC_UserOps.cfg") as f:
+        text = f.read().replace("CONSTANT Full = FALSE", "CONSTANT Full = %s" % ("TRUE" if full else "FALSE"))
+    with open(cfg, "w") as f:
+        f.write(text)
+    r = tlc.run(common.VERIF + "/spec/mc/MC_UserOps.tla", cfg, os.path.join(c.work, "tlc-uops"), workers=4, xmx="8g", timeout=7200)
+    if r.violated or not r.ok:
+        raise common.ToolError("UserOps.tla violates its own law %s" % r.violated)
+    out = [{"op": v[0], "t": [list(x) for x in v[1]]} for tag, v in tlc.tagged(r.text, ("UOP",))]
+    if len(out) != r.distinct:
+        raise common.ToolError("template dump incomplete: %d of %d" % (len(out), r.distinct))
+    p = os.path.join(c.work, "uops.json")
+    with open(p, "w") as f:
+        json.dump({"templates": out}, f)
+    return r, p, len(out), len(set(x["op"] for x in out))
+
+
 def patterns(c):
-    r = tlc.run("/verif/spec/mc/MC_WirePatterns.tla", "/verif/spec/mc/MC_WirePatterns.cfg", os.path.join(c.work, "tlc-pat"), workers=1, xmx="4g", timeout=3600)
+    r = tlc.run(common.VERIF + "/spec/mc/MC_WirePatterns.tla", common.VERIF + "/spec/mc/MC_WirePatterns.cfg", os.path.join(c.work, "tlc-pat"), workers=1, xmx="4g", timeout=3600)
     hdr, idp = [], []
     for tag, v in tlc.tagged(r.text, ("HDR", "IDP")):
         (hdr if tag == "HDR" else idp).append(v)
@@ -78,22 +97,33 @@ def run(prop, tier, seed):
     r, spath, nshapes = shapes(c, t["full"])
     if prop == "C05":
         out = json.loads(common.run_bin("wire", ["shapes", spath, seed, t["per"]], timeout=7200))
-        report(c, "C05", out["violations"])
+        ru, upath, ntempl, nops = uo_templates(c, t["full"])
+        uo = json.loads(common.run_bin("wire", ["uops", upath, seed, t["per"]], timeout=7200))
+        report(c, "C05", out["violations"] + uo["violations"])
         c.coverage = {
-            "evaluations": out["evaluations"], "distinct_nontrivial": nshapes,
+            "evaluations": out["evaluations"] + uo["evaluations"], "distinct_nontrivial": nshapes + ntempl,
+            "user_operations": {"templates": ntempl, "operations": nops, "instances": uo["evaluations"], "samples": uo["samples"],
+                                "rule": "every template of UserOps.tla (26 reserved user operations + the status report; identifier widths x every value of every packed "
+                                        "field x length classes, enumerated by TLC, laws OctetsOk / NibRoundTrip checked) instantiated with seeded octets w: decode(w) "
+                                        "succeeds, encode(decode(w)) = w, encoded_len = |w|, decode(encode(x)) = x"},
             "rule": "one case per shape of Wire.tla's shape space (kind x flags x id width x sequence width x error condition x name-length classes x TLV kinds x "
                     "request/response counts), enumerated exhaustively by TLC (%d shapes, laws LengthsFit and HeaderRoundTrip checked), each instantiated %d time(s) with seeded "
                     "values; distinct = distinct shapes" % (nshapes, t["per"]),
             "samples": out["samples"], "shapes": nshapes, "exhaustive_over_shapes": True,
-            "not_decided": ["values of continuous fields beyond the seeded samples", "user-operation messages inside Message-to-User TLVs (opaque bytes here)"],
+            "not_decided": ["values of continuous fields beyond the seeded samples"],
         }
     elif prop == "C06":
         out = json.loads(common.run_bin("wire", ["shapes", spath, seed, 1, "mutate"], timeout=14400))
         ppath, nh, ni = patterns(c)
         ar = json.loads(common.run_bin("wire", ["arith", ppath], timeout=3600))
-        report(c, "C06", out["violations"] + ar["violations"])
+        ru, upath, ntempl, nops = uo_templates(c, t["full"])
+        uo = json.loads(common.run_bin("wire", ["uops", upath, seed, 1, "mutate"], timeout=7200))
+        report(c, "C06", out["violations"] + ar["violations"] + uo["violations"])
         c.coverage = {
-            "evaluations": out["truncations"] + out["mutations"] + ar["evaluations"], "distinct_nontrivial": nshapes + nh + ni,
+            "evaluations": out["truncations"] + out["mutations"] + ar["evaluations"] + uo["truncations"] + uo["mutations"],
+            "distinct_nontrivial": nshapes + nh + ni + ntempl,
+            "user_operations": {"templates": ntempl, "truncations": uo["truncations"], "mutations": uo["mutations"],
+                                "rule": "every truncation of an instance of every UserOps.tla template is rejected, no single-octet mutation makes UserOperation::decode / Report::decode panic"},
             "rule": "for every shape of Wire.tla: every truncation of its encoding (must be rejected) and 5 single-octet mutations at up to 48 positions (no panic; what is accepted "
                     "must re-encode and decode to itself); plus every boundary pattern of the decoder-arithmetic model (first octet x length octets x width octet x bytes available; "
                     "id length octet 0..255 x bytes available) into PDU::decode / VariableID::decode under catch_unwind; distinct = shapes + patterns",
@@ -105,17 +135,17 @@ def run(prop, tier, seed):
     else:
         # the lemma on the specification
         cfg = os.path.join(c.work, "MC_Crc.cfg")
-        with open("/verif/spec/mc/MC_Crc.cfg") as f:
+        with open(common.VERIF + "/spec/mc/MC_Crc.cfg") as f:
             text = f.read().replace("CONSTANT L = 4", "CONSTANT L = %d" % t["crcL"])
         with open(cfg, "w") as f:
             f.write(text)
-        rc = tlc.run("/verif/spec/mc/MC_Crc.tla", cfg, os.path.join(c.work, "tlc-crc"), workers=1, xmx="6g", timeout=7200)
+        rc = tlc.run(common.VERIF + "/spec/mc/MC_Crc.tla", cfg, os.path.join(c.work, "tlc-crc"), workers=1, xmx="6g", timeout=7200)
         if rc.violated or not rc.ok:
             raise common.ToolError("Crc.tla: detection lemma fails in the bounded model: %s" % rc.violated)
         trace = os.path.join(c.work, "crc.ndjson")
         args = ["crc", spath, seed, trace] + (["heavy"] if t["heavy"] else [])
         out = json.loads(common.run_bin("wire", args, timeout=14400))
-        tr = tlc.run("/verif/spec/trace/CrcTrace.tla", "/verif/spec/trace/CrcTrace.cfg", os.path.join(c.work, "tlc-crctrace"),
+        tr = tlc.run(common.VERIF + "/spec/trace/CrcTrace.tla", common.VERIF + "/spec/trace/CrcTrace.cfg", os.path.join(c.work, "tlc-crctrace"),
                      workers=1, env={"TRACE": trace}, jvm=["-Xss1g"], timeout=3600)
         bad = [v for tag, v in tlc.tagged(tr.text, ("BAD",))]
         cons = [v for tag, v in tlc.tagged(tr.text, ("CONSUMED",))]
